@@ -28,6 +28,7 @@ import (
 	"os"
 	"regexp"
 	"sort"
+	"strconv"
 	"strings"
 	"unicode/utf8"
 
@@ -49,12 +50,21 @@ type C13Env struct {
 	AnyN   interface{}
 	Zero   int
 	NilP   *Inner
+	// evaluates ANOTHER expression and re-panics with that evaluation's own error value (a *file.Error of another source)
+	Rethrow func(src string) int
 }
 
 func c13Env() C13Env {
 	b := baseEnv()
 	e := C13Env{Env: *b, Über: 11, Ñame: "ñandú", Größen: []int{5, 6, 7}, AnyS: "str", AnyI: 42, AnyN: nil, Zero: 0, NilP: nil}
 	e.St.Next = nil
+	e.Rethrow = func(src string) int {
+		_, err := expr.Eval(src, nil)
+		if err != nil {
+			panic(err)
+		}
+		return 0
+	}
 	return e
 }
 
@@ -831,8 +841,12 @@ func (c *c13ctx) treeFaults(root *c13n) []c13fault {
 				n.parts[0].tok = c13unknownNames[rng.Intn(len(c13unknownNames))]
 				return n
 			}})
-			if len(ch) > 0 && ch[0].typ == "int" {
-				fs = append(fs, c13fault{"string argument for an int parameter", "type-mismatch", "", func() *c13n { return replace(n, 0, strLeaf()) }})
+			for ai := range ch {
+				// every argument position, also the later ones of a variadic call (Sum): the error names THAT argument
+				if ch[ai].typ == "int" {
+					ai := ai
+					fs = append(fs, c13fault{fmt.Sprintf("string argument %d for an int parameter", ai+1), "type-mismatch", "", func() *c13n { return replace(n, ai, strLeaf()) }})
+				}
 			}
 		case "prop", "method":
 			if ai := n.anchorIdx(); ai > 0 && n.parts[ai-1].tok == "?." {
@@ -984,6 +998,19 @@ func (c *c13ctx) compileFaults(nTrees int) {
 			c.judge(k, err)
 			c.countDistinct(k)
 		}
+	}
+	// a wrongly typed argument at EVERY position of a variadic call: the error is located at that argument
+	for _, vc := range []struct{ src, bad string }{
+		{"Sum(I, I, S)", "S)"}, {"Sum(I, S, I)", "S,"}, {"Sum(S, I, I)", "S,"}, {"Sum('żółw' == S ? 1 : 2, Über, 2,\n  Ñame, 4) + 1", "Ñame"},
+		{"Sum(1, 2, 3, 4, B)", "B)"}, {"1 + Sum(I,\n\tI,\n\tS2,\n\tI)", "S2"}, {"Sum(I, Sum(I, I, S), I)", "S)"}, {"[Sum(I, I), Sum(I, I, I, S)]", "S)"},
+	} {
+		idx := strings.Index(vc.src, vc.bad)
+		p := c13posAt(vc.src, utf8.RuneCountInString(vc.src[:idx]))
+		k := c13case{Stream: "type-mismatch", Fault: "wrongly typed variadic argument", Src: vc.src, Typed: true, Opt: true, Line: p.line, Col: p.col, Hint: ""}
+		_, err := c.compile(vc.src, true, true)
+		c.rep.hist("fault type-mismatch: variadic argument (directed)")
+		c.judge(k, err)
+		c.countDistinct(k)
 	}
 	// the result directive must not hide the position of the first error (finding: checker.Check tests `expect` first)
 	for _, src := range []string{"unknown + 1", "I +\n  ünknown", "[1, 2][nope]", "not\tnope"} {
@@ -1434,6 +1461,39 @@ func (c *c13ctx) underUnary(f c13rt) c13rt {
 	return c13rt{n: c13un(op, f.n, f.n.typ), at: f.at}
 }
 
+// a function of the environment that fails with the error VALUE of a nested evaluation of another source: the outer
+// error is located at the call in the OUTER source (and inside it), not where the inner source failed
+func (c *c13ctx) nestedEvalFaults() {
+	inner := []string{"1 +\n\n          nope()", "[1, 2][7]", "\n\n\n      1 / zero", "1 % 0"}
+	outer := []string{"Rethrow(%s)", "I > 100 ? 0 :\n  (B ? Rethrow(%s) : I / 0)", "\"ñ\" + S == S or Rethrow(%s) > 0", "[1, Rethrow(%s)][1]", "map(1..2, {Rethrow(%s)})"}
+	for _, in := range inner {
+		for _, o := range outer {
+			src := fmt.Sprintf(o, strconv.Quote(in))
+			idx := strings.Index(src, "Rethrow")
+			p := c13posAt(src, utf8.RuneCountInString(src[:idx]))
+			for _, m := range []struct{ typed, opt bool }{{true, true}, {false, false}} {
+				prog, err := c.compile(src, m.typed, m.opt)
+				if err != nil {
+					c.rep.hist("nested-evaluation program rejected at compile time")
+					continue
+				}
+				r, pan := c13safeRun(prog, c.env)
+				if pan != nil {
+					r.err = fmt.Errorf("vm.Run panicked: %v", pan)
+				}
+				if r.err == nil {
+					c.rep.hist("run-time program did not fail")
+					continue
+				}
+				k := c13case{Stream: "run", Fault: "function re-panicking with the error of a nested evaluation", Src: src, Typed: m.typed, Opt: m.opt, Line: p.line, Col: p.col, Hint: ""}
+				c.rep.hist("fault run: nested evaluation")
+				c.judge(k, r.err)
+				c.countDistinct(k)
+			}
+		}
+	}
+}
+
 func (c *c13ctx) runFaults(n int) {
 	// programs kept to be run AGAIN after all the later compilations (an application compiles its rule set first and
 	// evaluates later): the position a program reports does not depend on what was compiled after it
@@ -1681,6 +1741,7 @@ func runC13() {
 	c.compileFaults(nTrees)
 	c.syntaxFaults(nSyn)
 	c.runFaults(nRun)
+	c.nestedEvalFaults()
 	c.snippets(nSnip)
 
 	rep.Distinct = len(c.distinct)
